@@ -299,6 +299,30 @@ struct CompressedPGMIndex<K, Epsilon, EpsilonRecursive, Floating>::CompressedLev
     sdsl::sd_vector<> compressed_intercepts;   ///< The compressed bitvector storing the intercepts.
     sdsl::sd_vector<>::select_1_type sel1;     ///< The select1 succinct data structure on compressed_intercepts.
 
+    // sel1 points to compressed_intercepts, hence copies and moves must re-target it to their own bitvector.
+    CompressedLevel(const CompressedLevel &other)
+        : keys(other.keys),
+          slopes_map(other.slopes_map),
+          intercept_offset(other.intercept_offset),
+          compressed_intercepts(other.compressed_intercepts),
+          sel1(&compressed_intercepts) {}
+
+    CompressedLevel(CompressedLevel &&other)
+        : keys(std::move(other.keys)),
+          slopes_map(std::move(other.slopes_map)),
+          intercept_offset(other.intercept_offset),
+          compressed_intercepts(std::move(other.compressed_intercepts)),
+          sel1(&compressed_intercepts) {}
+
+    CompressedLevel &operator=(CompressedLevel other) {
+        keys = std::move(other.keys);
+        slopes_map = std::move(other.slopes_map);
+        intercept_offset = other.intercept_offset;
+        compressed_intercepts = std::move(other.compressed_intercepts);
+        sel1.set_vector(&compressed_intercepts);
+        return *this;
+    }
+
     template<typename IterK, typename IterI, typename IterM>
     CompressedLevel(IterK first_segment, IterK last_segment,
                     IterI first_intercept, IterI last_intercept,
